@@ -12,8 +12,11 @@
     the buckets the way the Go code ranges over the map (the theorems show the
     result does not depend on that order).  [sort.Slice] is unstable in
     general, but for at most 12 elements it is an insertion sort, i.e. a
-    stable sort; [isort] below is that stable insertion sort (the theorems only
-    use that it returns a metric-sorted permutation).  No proofs here. *)
+    stable sort; [isort] below is that stable insertion sort.  The sorting
+    function is a parameter [srt] of every operation: the theorems hold for
+    every function that returns a metric-sorted permutation of its argument
+    ([sorter_ok]); the correspondence check instantiates it with [isort] and
+    keeps buckets at 12 entries or fewer.  No proofs here. *)
 From Coq Require Import List NArith Bool.
 Import ListNotations.
 Local Open Scope N_scope.
@@ -39,13 +42,15 @@ Section Buckets.
   (** [same x r]: x occupies the slot r would go to (same origin; in the
       agent table same origin and same next hop) *)
   Variable same : entry D -> entry D -> bool.
+  (** sortRoutes (sort.Slice by metric) *)
+  Variable srt : list (entry D) -> list (entry D).
 
   (** the update rule of AddRoute: newer sequence, or same sequence and
       strictly lower metric *)
   Definition newer (r old : entry D) : bool :=
     (e_seq old <? e_seq r) || ((e_seq r =? e_seq old) && (e_metric r <? e_metric old)).
 
-  (** stable insertion sort by metric (sortRoutes) *)
+  (** stable insertion sort by metric: what sort.Slice is for <= 12 elements *)
   Fixpoint ins (x : entry D) (l : list (entry D)) : list (entry D) :=
     match l with
     | [] => [x]
@@ -69,7 +74,7 @@ Section Buckets.
     end.
 
   Definition bucket_add (r : entry D) (b : list (entry D)) : option (list (entry D)) :=
-    match bucket_put r b with Some b' => Some (isort b') | None => None end.
+    match bucket_put r b with Some b' => Some (srt b') | None => None end.
 
   (** RemoveRoute: delete the first entry of that origin *)
   Fixpoint bucket_remove (o : N) (b : list (entry D)) : option (list (entry D)) :=
@@ -94,6 +99,7 @@ Section Tables.
   Context {K D : Type}.
   Variable keqb : K -> K -> bool.
   Variable same : entry D -> entry D -> bool.
+  Variable srt : list (entry D) -> list (entry D).
 
   Definition table := list (K * list (entry D)).
 
@@ -113,7 +119,7 @@ Section Tables.
     end.
 
   Definition tadd (k : K) (r : entry D) (t : table) : table * bool :=
-    match bucket_add same r (tget k t) with
+    match bucket_add same srt r (tget k t) with
     | Some b => (tset k b t, true)
     | None => (t, false)
     end.
@@ -152,6 +158,9 @@ Section Tables.
     match tget k t with [] => None | x :: _ => Some x end.
 End Tables.
 Arguments table : clear implicits.
+
+(** a sorting function for the buckets of every table *)
+Definition sorter : Type := forall D : Type, list (entry D) -> list (entry D).
 
 Definition same_origin {D} (x r : entry D) : bool := e_origin x =? e_origin r.
 Definition same_origin_nexthop {D} (x r : entry D) : bool :=
@@ -254,13 +263,13 @@ Definition cidr_lookup (t : ctable) (a : addr) : option (entry prefix) :=
   lpm_scan contains p_len t a None.
 
 (** Table.AddRoute *)
-Definition cidr_add (local now : N) (t : ctable) (raw : rawnet)
+Definition cidr_add (srt : sorter) (local now : N) (t : ctable) (raw : rawnet)
            (nexthop origin metric seq : N) (path : list N) : ctable * bool :=
   match canon raw with
   | None => (t, false)
   | Some p =>
       if path_has local path then (t, false)
-      else tadd prefix_eqb same_origin p (mkE origin nexthop metric seq path now p) t
+      else tadd prefix_eqb same_origin (srt prefix) p (mkE origin nexthop metric seq path now p) t
   end.
 
 (** Table.RemoveRoute: networkKey falls back to the printed form, which no
@@ -361,7 +370,7 @@ Definition domain_lookup (exact wild : dtable) (name : str) : option (entry drec
 
 (** DomainTable.AddRoute with the (IsWildcard, BaseDomain) the manager derives
     from the pattern; the result says into which map the route went *)
-Definition domain_add (local now : N) (exact wild : dtable) (pat : str)
+Definition domain_add (srt : sorter) (local now : N) (exact wild : dtable) (pat : str)
            (nexthop origin metric seq : N) (path : list N) : dtable * dtable * bool :=
   match pat with
   | [] => (exact, wild, false)
@@ -370,8 +379,8 @@ Definition domain_add (local now : N) (exact wild : dtable) (pat : str)
       else
         let '(w, base) := parse_pattern pat in
         let r := mkE origin nexthop metric seq path now (mkDR pat w base) in
-        if w then let '(t, ok) := tadd str_eqb same_origin (lower base) r wild in (exact, t, ok)
-        else let '(t, ok) := tadd str_eqb same_origin (lower pat) r exact in (t, wild, ok)
+        if w then let '(t, ok) := tadd str_eqb same_origin (srt drec) (lower base) r wild in (exact, t, ok)
+        else let '(t, ok) := tadd str_eqb same_origin (srt drec) (lower pat) r exact in (t, wild, ok)
   end.
 
 (** DomainTable.RemoveRoute *)
@@ -390,12 +399,12 @@ Definition domain_remove (exact wild : dtable) (pat : str) (origin : N) : dtable
 Definition ftable := table str str.      (* key -> routes carrying the target *)
 Definition atable := table N unit.       (* agent id -> routes *)
 
-Definition fwd_add (local now : N) (t : ftable) (key target : str)
+Definition fwd_add (srt : sorter) (local now : N) (t : ftable) (key target : str)
            (nexthop origin metric seq : N) (path : list N) : ftable * bool :=
   match key with
   | [] => (t, false)
   | _ => if path_has local path then (t, false)
-         else tadd str_eqb same_origin key (mkE origin nexthop metric seq path now target) t
+         else tadd str_eqb same_origin (srt str) key (mkE origin nexthop metric seq path now target) t
   end.
 
 Definition fwd_remove (t : ftable) (key : str) (origin : N) : ftable * bool :=
@@ -404,10 +413,10 @@ Definition fwd_remove (t : ftable) (key : str) (origin : N) : ftable * bool :=
   | _ => tremove str_eqb key origin t
   end.
 
-Definition agent_add (local now : N) (t : atable) (agent nexthop origin metric seq : N)
+Definition agent_add (srt : sorter) (local now : N) (t : atable) (agent nexthop origin metric seq : N)
            (path : list N) : atable * bool :=
   if path_has local path then (t, false)
-  else tadd N.eqb same_origin_nexthop agent (mkE origin nexthop metric seq path now tt) t.
+  else tadd N.eqb same_origin_nexthop (srt unit) agent (mkE origin nexthop metric seq path now tt) t.
 
 Definition agent_remove (t : atable) (agent origin : N) : atable * bool :=
   tremove N.eqb agent origin t.
@@ -491,6 +500,7 @@ Inductive found :=
 
 Section Manager.
   Variable local : N.
+  Variable srt : sorter.
 
   Definition set_cidr (m : mgr) (t : ctable) : mgr :=
     mkM (m_now m) (m_seq m) t (m_dexact m) (m_dwild m) (m_fwd m) (m_agent m) (m_local m) (m_dyn m) (m_ldom m) (m_lfwd m).
@@ -511,7 +521,7 @@ Section Manager.
     match ents with
     | [] => (t, 0)
     | (n, metric) :: ents' =>
-        let '(t1, ok) := cidr_add local now t n peer origin (u16 (metric + 1)) seq path in
+        let '(t1, ok) := cidr_add srt local now t n peer origin (u16 (metric + 1)) seq path in
         let '(t2, c) := adv_cidr now t1 peer origin seq path ents' in
         (t2, b2n ok + c)
     end.
@@ -530,7 +540,7 @@ Section Manager.
     match ents with
     | [] => (e, w, 0)
     | (metric, pat) :: ents' =>
-        let '(e1, w1, ok) := domain_add local now e w pat peer origin (u16 (metric + 1)) seq path in
+        let '(e1, w1, ok) := domain_add srt local now e w pat peer origin (u16 (metric + 1)) seq path in
         let '(e2, w2, c) := adv_dom now e1 w1 peer origin seq path ents' in
         (e2, w2, b2n ok + c)
     end.
@@ -540,7 +550,7 @@ Section Manager.
     match ents with
     | [] => (t, 0)
     | (metric, key, target) :: ents' =>
-        let '(t1, ok) := fwd_add local now t key target peer origin (u16 (metric + 1)) seq path in
+        let '(t1, ok) := fwd_add srt local now t key target peer origin (u16 (metric + 1)) seq path in
         let '(t2, c) := adv_fwd now t1 peer origin seq path ents' in
         (t2, b2n ok + c)
     end.
@@ -567,7 +577,7 @@ Section Manager.
         let k := strkey n in
         let seq := m_seq m + 1 in
         let m1 := set_meta m seq (sadd okey_eqb k (m_local m)) (m_dyn m) (m_ldom m) (m_lfwd m) in
-        let '(t, ok) := cidr_add local now (m_cidr m) n local local metric seq [] in
+        let '(t, ok) := cidr_add srt local now (m_cidr m) n local local metric seq [] in
         (set_cidr m1 t, b2n ok, FNone)
     | ORmLocal n =>
         let k := strkey n in
@@ -582,7 +592,7 @@ Section Manager.
         else
           let seq := m_seq m + 1 in
           let m1 := set_meta m seq (sadd okey_eqb k (m_local m)) (sadd okey_eqb k (m_dyn m)) (m_ldom m) (m_lfwd m) in
-          let '(t, _) := cidr_add local now (m_cidr m) n local local metric seq [] in
+          let '(t, _) := cidr_add srt local now (m_cidr m) n local local metric seq [] in
           (set_cidr m1 t, 0, FNone)
     | ORmDyn n =>
         let k := strkey n in
@@ -592,7 +602,7 @@ Section Manager.
           (set_cidr m1 t, 0, FNone)
         else (m, if mem okey_eqb k (m_local m) then 1 else 2, FNone)
     | OTAdd nexthop origin seq metric path n =>
-        let '(t, ok) := cidr_add local now (m_cidr m) n nexthop origin metric seq path in
+        let '(t, ok) := cidr_add srt local now (m_cidr m) n nexthop origin metric seq path in
         (set_cidr m t, b2n ok, FNone)
     | OTRm origin n =>
         let '(t, ok) := cidr_remove (m_cidr m) n origin in (set_cidr m t, b2n ok, FNone)
@@ -613,7 +623,7 @@ Section Manager.
         else
           let seq := m_seq m + 1 in
           let m1 := set_meta m seq (m_local m) (m_dyn m) (sadd str_eqb pat (m_ldom m)) (m_lfwd m) in
-          let '(e, w, ok) := domain_add local now (m_dexact m) (m_dwild m) pat local local metric seq [] in
+          let '(e, w, ok) := domain_add srt local now (m_dexact m) (m_dwild m) pat local local metric seq [] in
           (set_dom m1 e w, b2n ok, FNone)
     | ODRmLocal pat =>
         if is_nil pat || negb (mem str_eqb pat (m_ldom m)) then (m, 0, FNone)
@@ -638,7 +648,7 @@ Section Manager.
         else
           let seq := m_seq m + 1 in
           let m1 := set_meta m seq (m_local m) (m_dyn m) (m_ldom m) (sadd str_eqb key (m_lfwd m)) in
-          let '(t, ok) := fwd_add local now (m_fwd m) key target local local metric seq [] in
+          let '(t, ok) := fwd_add srt local now (m_fwd m) key target local local metric seq [] in
           (set_fwd m1 t, b2n ok, FNone)
     | OFRmLocal key =>
         if is_nil key || negb (mem str_eqb key (m_lfwd m)) then (m, 0, FNone)
@@ -650,7 +660,7 @@ Section Manager.
         let '(t, ok) := fwd_remove (m_fwd m) key origin in (set_fwd m t, b2n ok, FNone)
 
     | OAAdv peer origin seq agent metric path =>
-        let '(t, ok) := agent_add local now (m_agent m) agent peer origin metric seq path in
+        let '(t, ok) := agent_add srt local now (m_agent m) agent peer origin metric seq path in
         (set_agent m t, b2n ok, FNone)
     | OADisc peer =>
         let t := tfilter (keep_peer peer) (m_agent m) in
@@ -1019,7 +1029,7 @@ Definition case := (list N * list str * list N * list (list N) * list N)%type.
 Definition the_local : N := 0.
 
 Definition run_lookups (m : mgr) (ld : N) (ls : list op) : N :=
-  fold_left (fun ld o => let '(_, _, f) := step the_local m o in mix ld (found_code f)) ls ld.
+  fold_left (fun ld o => let '(_, _, f) := step the_local (@isort) m o in mix ld (found_code f)) ls ld.
 
 (** index of the first operation whose observation differs, with the model's
     value and the observed one (for diagnosis) *)
@@ -1037,7 +1047,7 @@ Fixpoint first_diff (P : pools) (i : N) (m : mgr) (ld : N) (ops : list (list N))
           match decode_op P enc with
           | None => Some (i, 0, 1)
           | Some o =>
-              let '(m', ret, _) := step the_local m o in
+              let '(m', ret, _) := step the_local (@isort) m o in
               match obs with
               | x :: obs' =>
                   let v := obs_of ld ret (state_hash m') in
@@ -1087,7 +1097,7 @@ Definition ctable_pre_fix := table (option prefix) rawnet.
 Definition cidr_add_pre_fix (local now : N) (t : ctable_pre_fix) (raw : rawnet)
            (nexthop origin metric seq : N) (path : list N) : ctable_pre_fix * bool :=
   if path_has local path then (t, false)
-  else tadd okey_eqb same_origin (strkey raw) (mkE origin nexthop metric seq path now raw) t.
+  else tadd okey_eqb same_origin isort (strkey raw) (mkE origin nexthop metric seq path now raw) t.
 
 Definition cidr_lookup_pre_fix (t : ctable_pre_fix) (a : addr) : option (entry rawnet) :=
   lpm_scan raw_contains raw_ones t a None.
